@@ -2,6 +2,7 @@
 import json
 import common
 import ls_iter as L
+import c12
 
 COMPONENTS = ['iter']
 DRIVERS = {'iter': (['run_iter'], ['iter/Run.vo'])}
@@ -25,11 +26,24 @@ ASSUME = ['memory model (DESIGN 3.3): all atomics of the protocol are SeqCst exc
 
 def run(ctx):
     ctx.trusted_base, ctx.assumptions = TB, ASSUME
-    if not ctx.harness(['ls_iter', 'sh_probe']):
+    if not ctx.harness(['ls_iter', 'ls_addsig', 'sh_probe']):
         return
     ctx.translate(COMPONENTS)
     ctx.prove('props/C10.v')
     L.lockstep(ctx, [L.mon_c10], ['c10'], with_raw=True)
+    c12.concurrent_add(ctx, 'records')
+    # the info-carrying exfiltrators pass every record through a Channel: "each delivery yields at most
+    # one record, a faithful copy, in delivery order" composes with C06 (FIFO, nothing invented or
+    # duplicated) and C07 (cells never accessed concurrently) - their cones and monitors are part of C10
+    import ls_channel as LC
+    ctx.harness(['ls_channel', 'p_nested'])
+    if ctx.translate(['channel']):
+        ctx.prove_dep('props/C06.v', 'WithRawSiginfo / WithOrigin records travel through Channel::send / recv')
+        ctx.prove_dep('props/C07.v', 'a record is a faithful copy only if its cell is never written while it is read')
+    LC.lockstep(ctx, [LC.mon_c06, LC.mon_c07])
+    LC.nested_sweep(ctx, ('outcome', 'panic', 'drops'))
+    ctx.coverage['rule_concurrent_add'] = ('two add_signal calls on clones of one handle, every pause point of one against the other (deterministic scheduler), '
+                                           'same and different signals, SignalOnly and WithRawSiginfo: one delivery afterwards runs one action and yields one record')
     ctx.coverage['rule'] = ('SignalOnly lock-step scenarios (deliveries landing in the middle of a scan, several live batches, add_signal) + WithRawSiginfo bursts of 3-8 deliveries (longer than the 5-slot channel) under '
                             'sequential and random schedules; monitors on the real traces: yields vs the delivery log (count per signal <= deliveries begun at that instant, watched numbers only), '
                             'siginfo records compared word by word with the delivered ones (all 32 words derive from a marker), each at most once, per-signal order consistent with non-overlapping deliveries')
@@ -38,6 +52,9 @@ def run(ctx):
 def replay(ctx, path):
     case = json.load(open(path))
     sc = case.get('case', {}).get('scenario')
+    if case.get('case', {}).get('nested') or (sc and sc.get('system') == 'channel'):
+        import ls_channel as LC
+        return LC.replay_case(ctx, path, [LC.mon_c06, LC.mon_c07])
     if not sc:
         print('replay file names no concrete input:', json.dumps(case.get('broken'), indent=1)[:2000])
         return 1
